@@ -12,6 +12,7 @@ Kinds == {Absent, Empty, [kind |-> "nontdf", cid |-> 2], [kind |-> "tdf", cid |-
 Ops == {[op |-> "new", p |-> p] : p \in Paths}
        \cup {[op |-> "copy", p |-> p, q |-> q] : p \in Paths, q \in Paths}
        \cup {[op |-> k, p |-> p] : k \in {"open", "enter", "read", "mutate"}, p \in Paths}
+       \cup {o \in {[op |-> "mcopy", p |-> p, q |-> q] : p \in Paths, q \in Paths} : o.p # o.q}
 
 Init == started = FALSE /\ fs = [p \in Paths |-> Absent]
 Setup(f) == ~started /\ started' = TRUE /\ fs' = f
@@ -23,8 +24,12 @@ ResultOf(o) ==
     [] o.op = "copy" -> IF ~Exists(fs[o.p]) THEN "refused" ELSE IF Exists(fs[o.q]) THEN "exists" ELSE "ok"
     [] o.op = "open" -> IF Exists(fs[o.p]) THEN "ok" ELSE "refused"
     [] o.op \in {"enter", "read", "mutate"} -> IF fs[o.p].kind = "tdf" THEN "ok" ELSE "refused"
+    [] o.op = "mcopy" -> IF fs[o.p].kind # "tdf" THEN "refused" ELSE IF Exists(fs[o.q]) THEN "exists" ELSE "ok"
 SuccOf(o) ==
-  IF ResultOf(o) # "ok" THEN fs
+  IF o.op = "mcopy" /\ fs[o.p].kind = "tdf"
+  THEN LET m == [fs EXCEPT ![o.p] = [kind |-> "tdf", cid |-> FreshCid]] IN
+       IF Exists(fs[o.q]) THEN m ELSE [m EXCEPT ![o.q] = m[o.p]]
+  ELSE IF ResultOf(o) # "ok" THEN fs
   ELSE CASE o.op = "new"    -> [fs EXCEPT ![o.p] = [kind |-> "tdf", cid |-> 1]]
          [] o.op = "copy"   -> [fs EXCEPT ![o.q] = fs[o.p]]
          [] o.op = "mutate" -> [fs EXCEPT ![o.p] = [kind |-> "tdf", cid |-> FreshCid]]
@@ -38,10 +43,11 @@ Open(p)    == Do([op |-> "open", p |-> p])
 Enter(p)   == Do([op |-> "enter", p |-> p])
 Read(p)    == Do([op |-> "read", p |-> p])
 Mutate(p)  == (\E c \in 4..MaxCid : \A q \in Paths : fs[q].cid # c) /\ Do([op |-> "mutate", p |-> p])
+MCopy(p, q) == p # q /\ (\E c \in 4..MaxCid : \A x \in Paths : fs[x].cid # c) /\ Do([op |-> "mcopy", p |-> p, q |-> q])
 
 Next == \/ \E f \in [Paths -> Kinds] : Setup(f)
         \/ \E p \in Paths : New(p) \/ Open(p) \/ Enter(p) \/ Read(p) \/ Mutate(p)
-        \/ \E p, q \in Paths : Copy(p, q)
+        \/ \E p, q \in Paths : Copy(p, q) \/ MCopy(p, q)
 Spec == Init /\ [][Next]_vars
 
 \* design-level properties: whatever call is made, an existing target is never
